@@ -1,4 +1,5 @@
 prop("C09", files={"root": ["vf_c09_test.go", "vf_c11_test.go", "vf_c10_test.go"] + RES + AUTH + EV}, shared={"root": J + ["vf_ids_test.go"]},
      assumptions=["in-package access to newAllowerContext / update / allowed through an overlay test file (no change to the repository)",
                   "the shared checker is driven exactly as authAndApplyEvents drives it: one AuthEvents provider that is cleared and refilled, update(provider), allowed(event)",
-                  "auth states containing events that could not themselves have been accepted (unparseable contents) are outside the judged domain"])
+                  "auth states containing events that could not themselves have been accepted (unparseable contents) are outside the judged domain"],
+     rapidfuzz=[('root', 'C09/verdict-is-a-function-of-needed-state', 60)])
